@@ -421,6 +421,11 @@ def ref_function(tree):
     plain exec in a private namespace holding only the qlasskit types (no qlasskit exec/eval logic)"""
     if tree == "notcallable":
         return None, None
+    if tree == "diverges":
+        def _diverges(*a, **k):
+            raise RecursionError("maximum recursion depth exceeded")
+
+        return _diverges, None
     if "missing" in tree:
         return "missing", None
     text, name, callees, argtypes = _src_text(tree["src"])
